@@ -173,19 +173,25 @@ impl AsCborValue for CoseKey {
 
     fn to_cbor_value(self) -> Result<Value> {
         let mut map: Vec<(Value, Value)> = vec![(KTY.to_cbor_value()?, self.kty.to_cbor_value()?)];
+        // Labels already emitted for populated fields: an extra parameter must not repeat them.
+        let mut seen = BTreeSet::new();
+        seen.insert(KTY);
         if !self.key_id.is_empty() {
+            seen.insert(KID);
             map.push((KID.to_cbor_value()?, Value::Bytes(self.key_id)));
         }
         if let Some(alg) = self.alg {
+            seen.insert(ALG);
             map.push((ALG.to_cbor_value()?, alg.to_cbor_value()?));
         }
         if !self.key_ops.is_empty() {
+            seen.insert(KEY_OPS);
             map.push((KEY_OPS.to_cbor_value()?, to_cbor_array(self.key_ops)?));
         }
         if !self.base_iv.is_empty() {
+            seen.insert(BASE_IV);
             map.push((BASE_IV.to_cbor_value()?, Value::Bytes(self.base_iv)));
         }
-        let mut seen = BTreeSet::new();
         for (label, value) in self.params {
             if seen.contains(&label) {
                 return Err(CoseError::DuplicateMapKey);
